@@ -139,7 +139,7 @@ w("""// a variadic list of tensors gives the iterator of the first one (trusted,
 //@   assigns nothing
 """)
 import sys
-CMP = os.environ.get("GEN_CMP") == "1"
+CMP = True
 for ops, types, name in (((["Gt", "Gte", "Lt", "Lte"], ORD, "eng_cmp_ord"), (["ElEq", "ElNe"], EQT, "eng_cmp_eq")) if CMP else ()):
     w("//@ schema %s match tensor.StdEng.{Op}" % name)
     w("//@   where Op in " + " ".join(ops))
@@ -163,6 +163,93 @@ for ops, types, name in (((["Gt", "Gte", "Lt", "Lte"], ORD, "eng_cmp_ord"), (["E
         w('//@   ensures [b_kept_%s] %s.t.Type == rtype("%s") && %s != %s ==> unchanged(%s)' % (T, A, T, A, B, V("b", T)))
     for T in types:
         w('//@   ensures [a_kept_%s] %s.t.Type == rtype("%s") && (opt_reuse(opts.arr) != 0 || opt_safe(opts.arr)) ==> unchanged(%s)' % (T, A, T, V("a", T)))
+    w("//@   config frame any")
+    w("")
+
+# ---------------- tensor-scalar arithmetic methods ----------------
+T_ = 'asptr("tensor.Dense", t)'
+w("""//@ func tensor.scalarDtypeCheck
+//@   trusted""")
+for T in ALL:
+    w('//@   ensures [%s] result == nil && asptr("tensor.Dense", a).t.Type == rtype("%s") ==> hastype(b, "%s")' % (T, T, T))
+w("//@   assigns nothing")
+w("")
+w("""// a scalar operand is boxed into a fresh one-element storage header (pooled; trusted)
+//@ func tensor.scalarToHeader
+//@   trusted
+//@   ensures [fresh] fresh(hdr) && fresh(hdr.Raw)""")
+for T in ALL:
+    w('//@   ensures [%s] hastype(a, "%s") ==> len(tview("%s", hdr)) == 1 && tview("%s", hdr)[0] == unbox("%s", a)' % (T, T, T, T, T))
+w("//@   assigns nothing")
+w("""
+//@ func tensor.freeScalar
+//@   trusted
+//@   assigns whole(bs)
+
+//@ func tensor.returnHeader
+//@   trusted
+//@   assigns hdr.Raw
+
+//@ func storage.Fill
+//@   trusted
+//@   params t dst src""")
+for T in KINDS18:
+    w('//@   let %s = tview("%s", dst)' % (VV("d", T), T))
+w("//@   assigns " + ", ".join("whole(%s)" % VV("d", T) for T in KINDS18))
+w("")
+for OP, TYPES in ARITH_T.items():
+    w("//@ schema eng_arith_scalar_%s match tensor.StdEng.{Op}Scalar" % OP.lower())
+    w("//@   where Op in %s" % OP)
+    w("//@   props C07 C06")
+    w("//@   config devirt tensor.Tensor=*tensor.Dense,tensor.DenseTensor=*tensor.Dense")
+    for T in ALL:
+        w('//@   let %s = tview("%s", %s)' % (V("t", T), T, T_))
+    w('//@   requires [dyn] typeis(t, "*tensor.Dense") && t.val != 0')
+    w('//@   requires [engines] !isnil(%s.e)' % T_)
+    w('//@   requires [wf_t] len(%s.old.strides) <= cap(%s.old.shape) && len(%s.Raw) / rsize(%s.t) == prodInts(%s.shape, len(%s.shape))' % ((T_,)*6))
+    w('//@   requires [dims_t] forall i :: 0 <= i && i < len(%s.shape) ==> %s.shape[i] >= 0' % (T_, T_))
+    # (a consequence of wf_t that needs induction over the shape: a product of non-negative extents is 1 only if all are 1)
+    w('//@   requires [single_element_shape] len(%s.Raw) / rsize(%s.t) == 1 ==> allOnes(%s.shape)' % (T_, T_, T_))
+    w('//@   requires [reuse_distinct] opt_reuse(opts.arr) != 0 ==> %s != %s && %s.Raw.arr != %s.Raw.arr' % (R, T_, R, T_))
+    w('//@   ensures [unsafe_returns_t] err == nil && opt_reuse(opts.arr) == 0 && !opt_safe(opts.arr) ==> retVal == t')
+    w('//@   ensures [reuse_returned] err == nil && opt_reuse(opts.arr) != 0 ==> retVal.val == opt_reuse(opts.arr)')
+    w('//@   ensures [safe_fresh] err == nil && opt_reuse(opts.arr) == 0 && opt_safe(opts.arr) ==> fresh(asptr("tensor.Dense", retVal)) && fresh(asptr("tensor.Dense", retVal).Raw)')
+    w('//@   ensures [t_kept] (opt_reuse(opts.arr) != 0 || opt_safe(opts.arr)) ==> ' + " && ".join('(%s.t.Type == rtype("%s") && !(opt_incr(opts.arr) && len(%s) == 1) ==> unchanged(%s))' % (T_, T, V("t", T), V("t", T)) for T in TYPES))
+    w("//@   config frame any")
+    w("")
+
+# ---------------- float32/float64-specialised engines: Add (C20: same result and same effect as the default engine) ----------------
+for W, T in (("64", "float64"), ("32", "float32")):
+    w("""//@ func tensor.handleFuncOptsF%s
+//@   trusted
+//@   ensures [modes] err == nil ==> (toReuse <==> !isnil(reuse)) && (incr ==> toReuse) && (toReuse ==> typeis(reuse, "*tensor.Dense"))
+//@   ensures [from_opts] err == nil ==> reuse.val == opt_reuse(opts.arr) && (isnil(reuse) <==> opt_reuse(opts.arr) == 0) && incr == opt_incr(opts.arr) && safe == opt_safe(opts.arr)
+//@   assigns asptr("tensor.Dense", opt_reuse(opts.arr)).AP
+""" % W)
+    av, bv, rv = 'tview("%s", %s)' % (T, A), 'tview("%s", %s)' % (T, B), 'tview("%s", %s)' % (T, R)
+    w("//@ func tensor.Float%sEngine.Add" % W)
+    w("//@   props C20 C07")
+    w("//@   config devirt tensor.Tensor=*tensor.Dense,tensor.DenseTensor=*tensor.Dense,tensor.headerer=*tensor.Dense")
+    w('//@   requires [dyn] typeis(a, "*tensor.Dense") && typeis(b, "*tensor.Dense") && a.val != 0 && b.val != 0')
+    w('//@   requires [engines] !isnil(%s.e) && !isnil(%s.e)' % (A, B))
+    w('//@   requires [wf_a] len(%s.old.strides) <= cap(%s.old.shape) && len(%s.Raw) / rsize(%s.t) == prodInts(%s.shape, len(%s.shape))' % (A, A, A, A, A, A))
+    w('//@   requires [dims_a] forall i :: 0 <= i && i < len(%s.shape) ==> %s.shape[i] >= 0' % (A, A))
+    w('//@   requires [wf_b] len(%s.old.strides) <= cap(%s.old.shape)' % (B, B))
+    w('//@   requires [dims_b] forall i :: 0 <= i && i < len(%s.shape) ==> %s.shape[i] >= 0' % (B, B))
+    # (with different element types and no reuse tensor the error message itself dereferences the nil reuse: observed, excluded)
+    w('//@   requires [same_dtype] %s.t == %s.t' % (A, B))
+    w('//@   requires [same_len] len(%s.Raw) == len(%s.Raw)' % (A, B))
+    w('//@   requires [storage] %s == %s || %s.Raw.arr != %s.Raw.arr' % (A, B, A, B))
+    w('//@   requires [reuse_distinct] opt_reuse(opts.arr) != 0 ==> %s != %s && %s != %s && %s.Raw.arr != %s.Raw.arr && %s.Raw.arr != %s.Raw.arr && len(%s.Raw) == len(%s.Raw) && %s.t == %s.t' % (R, A, R, B, R, A, R, B, R, A, R, A))
+    w('//@   ensures [unsafe_returns_a] err == nil && opt_reuse(opts.arr) == 0 && !opt_safe(opts.arr) ==> retVal == a')
+    w('//@   ensures [reuse_returned] err == nil && opt_reuse(opts.arr) != 0 ==> retVal.val == opt_reuse(opts.arr)')
+    w('//@   ensures [safe_fresh] err == nil && opt_reuse(opts.arr) == 0 && opt_safe(opts.arr) ==> fresh(asptr("tensor.Dense", retVal)) && fresh(asptr("tensor.Dense", retVal).Raw)')
+    flat = 'old(flatOK(%s) && flatOK(%s))' % (A, B)
+    w('//@   ensures [reuse_value] err == nil && %s.t.Type == rtype("%s") && %s && opt_reuse(opts.arr) != 0 && !opt_incr(opts.arr) ==> (forall i :: 0 <= i && i < len(%s) ==> %s[i] == op_Add(old(%s[i]), old(%s[i])))' % (A, T, flat, av, rv, av, bv))
+    w('//@   ensures [incr_value] err == nil && %s.t.Type == rtype("%s") && %s && opt_reuse(opts.arr) != 0 && opt_incr(opts.arr) ==> (forall i :: 0 <= i && i < len(%s) ==> %s[i] == op_Add(old(%s[i]), op_Add(old(%s[i]), old(%s[i]))))' % (A, T, flat, av, rv, rv, av, bv))
+    w('//@   ensures [unsafe_value] err == nil && %s.t.Type == rtype("%s") && %s && %s != %s && opt_reuse(opts.arr) == 0 && !opt_safe(opts.arr) ==> (forall i :: 0 <= i && i < len(%s) ==> %s[i] == op_Add(old(%s[i]), old(%s[i])))' % (A, T, flat, A, B, av, av, av, bv))
+    w('//@   ensures [b_kept] %s.t.Type == rtype("%s") && %s && %s != %s ==> unchanged(%s)' % (A, T, flat, A, B, bv))
+    w('//@   ensures [a_kept] %s.t.Type == rtype("%s") && %s && (opt_reuse(opts.arr) != 0 || opt_safe(opts.arr)) ==> unchanged(%s)' % (A, T, flat, av))
     w("//@   config frame any")
     w("")
 
